@@ -288,3 +288,21 @@ func shortHash(s string) string {
 	sum := sha256.Sum256([]byte(s))
 	return hex.EncodeToString(sum[:8])
 }
+
+// traceHash identifies a schedule; sandbox paths are erased first so that the
+// same execution in another sandbox directory has the same identity.
+func traceHash(trace []string) string {
+	t := strings.Join(trace, " ")
+	if curRoot != "" {
+		t = strings.ReplaceAll(t, curRoot, "$W")
+	}
+	return shortHash(t)
+}
+
+// normHash hashes text after erasing the sandbox root from it.
+func normHash(s string) string {
+	if curRoot != "" {
+		s = strings.ReplaceAll(s, curRoot, "$W")
+	}
+	return shortHash(s)
+}
